@@ -145,6 +145,24 @@ CHECKS = {
          "Trusted: Lean kernel + standard axioms; the table translator. Outside the model: pandas metadata JSON branch of typemap, "
          "time zones, pandas dtype objects (compared by canonical name).",
          "Lean 4 proof over regenerated tables + prediction correspondence + oracle", "§6 C17"),
+ "C01": ("Partial: the oracle (the property itself: names, order, rows, index, every cell, dtype or documented canonical form - or the write "
+         "raised) is evaluated on the real code over the option lattice with pairwise/random coverage; the format pipeline is tied to the "
+         "Lean specification reader Spec.File, which decodes the very bytes the writer produced (C02) - so a symmetric writer/reader error is "
+         "not invisible. Lean theorems at this level are those of C11 (codecs), C04 (statistics), C06 (row placement) and the page "
+         "building blocks in Props/C01 (definition-level framing, boolean padding, int96 and time-unit arithmetic).",
+         "Trusted: Lean kernel + standard axioms for the component theorems; dtype/metadata restoration (pandas metadata JSON, tz, "
+         "categorical flags, numpy views in dataframe.empty) is outside the model and covered by the oracle only.",
+         "Lean 4 proof of pipeline components + specification reader correspondence + round-trip oracle", "§6 C01"),
+ "C02": ("The Lean specification reader/validator Spec.File (file layout, Thrift compact metadata typed against the IDL table regenerated from "
+         "parquet.thrift, page headers, v1/v2 page layouts, PLAIN / dictionary / RLE / delta values, hybrid levels) is run on the real bytes of "
+         "EVERY file a write produces: magic, footer length, every metadata field with the id and wire type the IDL declares, per chunk "
+         "offsets / compressed and uncompressed sizes / num_values / null counts describing exactly the bytes present, pages tiling the "
+         "chunk, value counts adding up to the row count; and the decoded cells must equal the harness's own physical rendering of the "
+         "frame incl. NULL vs NaN per nullability mode. Lean theorems: the building blocks this reader rests on (varint, zigzag, bit "
+         "packing round trips of C11; IDL table obligations of C10).",
+         "Trusted: Lean kernel + standard axioms; the Lean compiler for executing Spec.File; cramjam for decompressing page payloads; "
+         "fidelity of Spec.File to the Parquet documents is by construction and reading, no second implementation is installed.",
+         "Lean 4 executable specification (independent reader) + IDL-typed validation + physical-level oracle", "§6 C02"),
 }
 
 def main():
